@@ -41,6 +41,14 @@ type Scenario struct {
 	UseStore   bool              // stage through the real content-addressed store
 	Derived    bool              // plan = Diff(scan, target): old entries describe the disk
 	Label      string
+	// Squats lists the paths at which the plan creates something and an edit
+	// puts content first (after the scan).
+	Squats []string
+	// ShmStaging puts the staging area under /dev/shm (another device): renames
+	// into the root are then really cross-device.
+	ShmStaging bool
+	// StoreMax is the size limit of the store (0: 1 MiB).
+	StoreMax uint64
 	// Stage, when set, fills the store instead of the default direct sink
 	// writes (C10: staging through the rsync receiver with corrupted streams).
 	Stage func(st *staging.Stager, root string, paths []string, digests [][]byte) error
@@ -328,6 +336,19 @@ func (g *Gen) GenScenario(edits, weird bool) *Scenario {
 	}
 	if edits {
 		sc.Edits = g.genEdits(sc.F0)
+		// Content appearing, after the scan, exactly where the plan creates something.
+		var creations []string
+		for _, ch := range sc.Plan {
+			if ch.Old == nil && ch.New != nil && ch.Path != "" {
+				creations = append(creations, ch.Path)
+			}
+		}
+		if len(creations) > 0 && g.R.Chance(1, 3) {
+			p := creations[g.R.Intn(len(creations))]
+			kind := []string{"squatfile", "squatfile", "squatdir", "squatlink"}[g.R.Intn(4)]
+			sc.Edits = append(sc.Edits, Edit{Kind: kind, Path: p, Data: g.Data(), Mtime: g.FreshMtime(), Perm: 0o644, Target: "zz"})
+			sc.Squats = append(sc.Squats, p)
+		}
 	}
 	return sc
 }
@@ -479,6 +500,19 @@ func applyEdit(root string, e Edit) (protected, added []string, err error) {
 		}
 		os.Remove(full)
 		return []string{e.Path}, nil, os.Symlink(e.Target, full)
+	case "squatfile", "squatdir", "squatlink":
+		parent, perr := os.Lstat(filepath.Dir(full))
+		if exists || perr != nil || !parent.IsDir() {
+			return nil, nil, nil
+		}
+		switch e.Kind {
+		case "squatfile":
+			return nil, nil, writeFileAt(full, e.Data, e.Perm, e.Mtime)
+		case "squatdir":
+			return nil, nil, os.Mkdir(full, 0o755)
+		default:
+			return nil, nil, os.Symlink(e.Target, full)
+		}
 	case "addfile", "adddir", "addfifo", "addlink":
 		parent, perr := os.Lstat(filepath.Dir(full))
 		if exists || perr != nil || !parent.IsDir() {
@@ -544,6 +578,9 @@ func Build(sc *Scenario, dir string, faults []Fault) (*Case, error) {
 		return nil, fmt.Errorf("materialise: %w", err)
 	}
 	c := &Case{Cfg: sc.Cfg, Root: root, Plan: sc.Plan, Faults: faults, Canon: NewCanon(), HonestStaging: true}
+	if len(sc.Edits) > 0 {
+		c.release = holdOpen(root)
+	}
 	snap, cache, err := Scan(root, sc.Cfg.slMode())
 	if err != nil {
 		return nil, fmt.Errorf("scan: %w", err)
@@ -591,9 +628,23 @@ func Build(sc *Scenario, dir string, faults []Fault) (*Case, error) {
 	c.Consistent = sc.Derived && len(sc.Edits) == 0
 	// Staging.
 	stagingDir := filepath.Join(dir, "staging")
+	if sc.ShmStaging {
+		shm := filepath.Join("/dev/shm", fmt.Sprintf("verif-transx-%d", os.Getpid()))
+		os.RemoveAll(shm)
+		if err := os.MkdirAll(shm, 0o700); err != nil {
+			return nil, err
+		}
+		stagingDir = filepath.Join(shm, "staging")
+		c.RealXDev = true
+		c.Cleanup = func() { os.RemoveAll(shm) }
+	}
+	storeMax := sc.StoreMax
+	if storeMax == 0 {
+		storeMax = 1 << 20
+	}
 	paths, digests := stagedKeys(sc.Plan)
 	if sc.UseStore {
-		st := staging.NewStager(stagingDir, false, 1<<20, sha1.New)
+		st := staging.NewStager(stagingDir, false, storeMax, sha1.New)
 		if err := st.Initialize(); err != nil {
 			return nil, err
 		}
@@ -665,6 +716,41 @@ func NewLinkNames(plan []*core.Change) map[string]bool {
 	}
 	for _, ch := range plan {
 		rec(ch.Path, ch.New)
+	}
+	return out
+}
+
+// ShmAvailable reports whether /dev/shm is a writable directory on another
+// device than dir (so that a staging area there makes renames into dir fail
+// with EXDEV).
+func ShmAvailable(dir string) bool {
+	a, err1 := os.Stat("/dev/shm")
+	os.MkdirAll(dir, 0o755)
+	b, err2 := os.Stat(dir)
+	if err1 != nil || err2 != nil || !a.IsDir() {
+		return false
+	}
+	if a.Sys().(*syscall.Stat_t).Dev == b.Sys().(*syscall.Stat_t).Dev {
+		return false
+	}
+	probe := filepath.Join("/dev/shm", fmt.Sprintf("verif-probe-%d", os.Getpid()))
+	if err := os.WriteFile(probe, nil, 0o600); err != nil {
+		return false
+	}
+	os.Remove(probe)
+	return true
+}
+
+// FileCreationNames lists the leaf names of the files a plan creates or swaps in.
+func FileCreationNames(plan []*core.Change) []string {
+	paths, _ := stagedKeys(plan)
+	seen := map[string]bool{}
+	var out []string
+	for _, p := range paths {
+		if n := Leaf(p); n != "" && !seen[n] {
+			seen[n] = true
+			out = append(out, n)
+		}
 	}
 	return out
 }
